@@ -11,3 +11,9 @@ Lemma tie_qmail_close_table :
                      end) Params_gen.qmail_close_table = true
   /\ 20 <= length Params_gen.qmail_close_table.
 Proof. split; [vm_compute; reflexivity | vm_compute; repeat constructor]. Qed.
+(* issafe() as generated from today's received.c decides, for every byte, exactly as the model's issafe: the characters a
+   peer-controlled string may contribute to the Received field *)
+From NQ Require Base.MiniC gen.CGen Tie.GenCommon Tie.Gen_small.
+Lemma tie_generated_issafe : forall c : N, (c < 256)%N ->
+  GenCommon.retval (CGen.C_issafe.run 1 (MiniC.wraps 8 (Z.of_N c))) = Some (MiniC.b2z (Smtpd.issafe c)).
+Proof. exact Gen_small.gen_issafe_eq. Qed.
